@@ -786,6 +786,124 @@ pub fn self_call_position_family() -> Vec<Prog> {
   out
 }
 
+/// Parameters that receive the same constant at every call site (candidates for constant-parameter
+/// elimination) or almost always: constant type x how the call sites agree x parameter position x
+/// function / method x whether the function also calls itself with the parameter unchanged / changed.
+pub fn constant_parameter_family() -> Vec<Prog> {
+  // (type, the constant, another constant, show expression of a value X, how recursion changes it)
+  let kinds: [(&str, &str, &str, &str, &str); 4] = [
+    ("int", "7", "8", "Str.fromInt(X)", "k + 1"),
+    ("bool", "true", "false", "(if X { \"T\" } else { \"F\" })", "!k"),
+    ("Str", "\"same\"", "\"other\"", "X", "k :: \"!\""),
+    ("Opt<int>", "Opt.None()", "Opt.Some(3)", "X.show()", "Opt.Some(1)"),
+  ];
+  let sites: [(&str, [usize; 3]); 4] = [("all-same", [0, 0, 0]), ("last-differs", [0, 0, 1]), ("first-differs", [1, 0, 0]), ("one-run-time", [0, 2, 0])];
+  let mut out = vec![];
+  for (ty, c0, c1, show, changed) in kinds {
+    for (sname, pattern) in sites {
+      for recursion in ["none", "unchanged", "changed"] {
+        for position in ["first", "last"] {
+          for method in [false, true] {
+            let params = if position == "first" { format!("k: {ty}, n: int") } else { format!("n: int, k: {ty}") };
+            let args = |k: &str, n: &str| if position == "first" { format!("{k}, {n}") } else { format!("{n}, {k}") };
+            let recv = if method { "this" } else { "Main" };
+            let shown = show.replace('X', "k");
+            let body = match recursion {
+              "none" => format!("{shown} :: \"/\" :: Str.fromInt(n)"),
+              "unchanged" => format!("if n <= 0 {{ {shown} }} else {{ {shown} :: \">\" :: {recv}.f({}) }}", args("k", "n - 1")),
+              _ => format!("if n <= 0 {{ {shown} }} else {{ {shown} :: \">\" :: {recv}.f({}) }}", args(changed, "n - 1")),
+            };
+            let run_time = match ty {
+              "int" => "\"7\".toInt()".to_string(),
+              "bool" => "\"1\".toInt() == 1".to_string(),
+              "Str" => "Main.id(\"same\")".to_string(),
+              _ => "Main.id(Opt.None<int>())".to_string(),
+            };
+            let consts = [c0.to_string(), c1.to_string(), run_time];
+            let mut main = String::new();
+            for (i, which) in pattern.iter().enumerate() {
+              let call = if method { format!("C.init({i}).f({})", args(&consts[*which], &format!("{}", i + 1))) } else { format!("Main.f({})", args(&consts[*which], &format!("{}", i + 1))) };
+              main.push_str(&format!("    Process.println({call});\n"));
+            }
+            let fdecl = format!("f({params}): Str = {body}");
+            let text = if method {
+              format!("class Opt<T>(None, Some(T)) {{\n  method show(): Str = match this {{ None -> \"None\", Some(_) -> \"Some\" }}\n}}\nclass C(val tag: int) {{\n  method {fdecl}\n}}\nclass Main {{\n  function <T> id(t: T): T = t\n  function main(): unit = {{\n{main}  }}\n}}\n")
+            } else {
+              format!("class Opt<T>(None, Some(T)) {{\n  method show(): Str = match this {{ None -> \"None\", Some(_) -> \"Some\" }}\n}}\nclass Main {{\n  function <T> id(t: T): T = t\n  function {fdecl}\n  function main(): unit = {{\n{main}  }}\n}}\n")
+            };
+            out.push(Prog {
+              family: "constant-parameter",
+              shape: format!("type={ty} sites={sname} recursion={recursion} position={position} {}", if method { "method" } else { "function" }),
+              name: format!("constant parameter {ty} {sname} rec={recursion} {position} {}", if method { "method" } else { "function" }),
+              text,
+            });
+          }
+        }
+      }
+    }
+  }
+  out
+}
+
+/// What happens to a freshly allocated value (escape analysis / scalar replacement decide on it):
+/// allocation kind x ordered pair of uses x control context. Every use prints something.
+pub fn escape_family(thorough: bool) -> Vec<Prog> {
+  // allocation: (name, type of `p`, allocation expression from ints x y, how to read its first and second component)
+  let allocs: [(&str, &str, &str, &str, &str); 3] = [
+    ("struct", "P", "P.init(x, y)", "p.a", "p.b"),
+    ("generic-struct", "G<int>", "G.init(x, y)", "p.a", "p.b"),
+    ("variant", "E", "E.Two(x, y)", "p.first()", "p.second()"),
+  ];
+  // uses of `p` (statement text; FST / SND are the component reads)
+  let uses: [(&str, &str); 9] = [
+    ("read-first", "Process.println(Str.fromInt(FST));"),
+    ("read-both", "Process.println(Str.fromInt(FST * 10 + SND));"),
+    ("pass-to-reader", "Process.println(Str.fromInt(Main.reader(p)));"),
+    ("store-in-vec", "let v = Vec.of(p); Process.println(Str.fromInt(v.length()));"),
+    ("capture-in-closure", "let f = () -> FST + 1; Process.println(Str.fromInt(f()));"),
+    ("store-in-box", "let b = Box.init(p); Process.println(Str.fromInt(Main.reader(b.v)));"),
+    ("pass-to-identity", "let q = Main.id(p); Process.println(Str.fromInt(Main.reader(q)));"),
+    ("wrap-in-option", "let o = Opt.Some(p); Process.println(o.fold(\"none\", (w) -> Str.fromInt(Main.reader(w))));"),
+    ("unused", "let _ = p;"),
+  ];
+  let contexts: [(&str, &str); 3] = [
+    ("straight", "    let p = ALLOC;\n    USES\n    SND"),
+    ("branch", "    let p = ALLOC;\n    if x > 0 {\n      USES\n    } else { };\n    SND"),
+    ("loop", "    if x <= 0 { y } else {\n      let p = ALLOC;\n      USES\n      Main.run(x - 1, SND + 1)\n    }"),
+  ];
+  let mut out = vec![];
+  for (aname, ty, alloc, fst, snd) in allocs {
+    for (cname, ctx) in contexts {
+      let mut use_lists: Vec<Vec<usize>> = (0..uses.len()).map(|i| vec![i]).collect();
+      if thorough {
+        for i in 0..uses.len() {
+          for j in 0..uses.len() {
+            if i != j {
+              use_lists.push(vec![i, j]);
+            }
+          }
+        }
+      }
+      for ul in use_lists {
+        let stmts: String = ul.iter().map(|i| uses[*i].1.replace("FST", fst).replace("SND", snd)).collect::<Vec<_>>().join("\n      ");
+        let body = ctx.replace("ALLOC", alloc).replace("USES", &stmts).replace("SND", snd);
+        let reader_body = fst.replace("p.", "q.").replace("(p)", "(q)");
+        let text = format!(
+          "class P(val a: int, val b: int) {{}}\nclass G<T>(val a: T, val b: T) {{}}\nclass E(Two(int, int), Zero) {{\n  method first(): int = match this {{ Two(a, _) -> a, Zero -> 0 }}\n  method second(): int = match this {{ Two(_, b) -> b, Zero -> 0 }}\n}}\nclass Box<T>(val v: T) {{}}\nclass Opt<T>(None, Some(T)) {{\n  method <R> fold(d: R, f: (T) -> R): R = match this {{ None -> d, Some(t) -> f(t) }}\n}}\nclass Main {{\n  function <T> id(t: T): T = t\n  function reader(q: {ty}): int = {reader_body} * 2\n  function run(x: int, y: int): int = {{\n{body}\n  }}\n  function main(): unit = {{\n    Process.println(Str.fromInt(Main.run(3, 4)));\n    Process.println(Str.fromInt(Main.run(\"2\".toInt(), \"9\".toInt())));\n    Process.println(Str.fromInt(Main.run(\"0\".toInt(), \"1\".toInt())))\n  }}\n}}\n"
+        );
+        let unames: Vec<&str> = ul.iter().map(|i| uses[*i].0).collect();
+        out.push(Prog {
+          family: "escape",
+          shape: format!("alloc={aname} uses={} context={cname}", unames.join("+")),
+          name: format!("escape {aname} {} {cname}", unames.join("+")),
+          text,
+        });
+      }
+    }
+  }
+  out
+}
+
 pub fn recursion_family(thorough: bool) -> Vec<Prog> {
   let mut out = vec![];
   let updates2 = ["a", "b", "a + b", "a - b", "b + 1", "a * 2", "0"];
@@ -1137,6 +1255,8 @@ pub fn all_families(thorough: bool) -> Vec<Prog> {
   v.extend(generic_closure_family());
   v.extend(recursion_family(thorough));
   v.extend(self_call_position_family());
+  v.extend(constant_parameter_family());
+  v.extend(escape_family(thorough));
   v.extend(vec_family(thorough));
   v.extend(string_family());
   v.extend(pattern_family());
